@@ -2,6 +2,7 @@
 From Coq Require Import ZArith List Bool String.
 From VD Require Import Base.Bytes Base.Text Base.Sexp Base.PixFmt Base.Struct.
 From VD Require Import Model.ClientMsgs Model.Keys Model.Pointer Model.ClientOps Spec.C2S.
+From VD Require Import Model.Server.
 Import ListNotations.
 Open Scope Z_scope.
 
@@ -66,9 +67,22 @@ Definition sexp_of_c2s (m : c2s) : sexp :=
 Definition d_parse_c2s (a : sexp) : sexp :=
   sOpt (fun ms => L (map sexp_of_c2s ms)) (parse_c2s (as_Zs a)).
 
+Definition mem_text (l : list sexp) (t : list Z) : bool := existsb (fun x => text_eqb (as_Zs x) t) l.
+
+Definition d_parse_server (a : sexp) : sexp :=
+  match as_list a with
+  | [srv; ex; v6] =>
+      match parse_server (mem_text (as_list ex)) (mem_text (as_list v6)) (as_Zs srv) with
+      | Some (f, h, p) => L [I (family_id f); sZs h; I p]
+      | None => L []
+      end
+  | _ => sErr
+  end.
+
 Definition name_is (n : list Z) (s : string) : bool := text_eqb n (text_of_ascii s).
 
 Definition dispatch (name : list Z) (a : sexp) : sexp :=
   if name_is name "client_ops" then d_client_ops a
   else if name_is name "parse_c2s" then d_parse_c2s a
+  else if name_is name "parse_server" then d_parse_server a
   else sErr.
